@@ -2,7 +2,7 @@
    Statements only; every proof is `exact <lemma>`.  find / codec_ok / decodable / handler are
    universally quantified: every service table, codec set and handler behaviour. *)
 From Coq Require Import List NArith Arith Bool Permutation.
-From RPCX Require Import Server.Dispatch Server.DispatchProofs.
+From RPCX Require Import Server.Dispatch Server.DispatchProofs Server.Gate Server.GateProofs.
 Import ListNotations.
 
 Theorem C04_two_way_exactly_one_stamped : forall find codec_ok decodable handler hmeta q,
@@ -51,9 +51,60 @@ Example C04_nonvacuous :
   = [(1, 7%N, 0, Some (XNoService 2)); (0, 7%N, 30, None)].
 Proof. reflexivity. Qed.
 
+(* The connection loop in front of the dispatch (Server/Gate.v): a request that a PostReadRequest plugin (the rate
+   limiters) or AuthFunc refuses is answered by the reader itself - exactly once if it is two-way: an error frame that
+   carries the refuser's text and the request's own sequence number, path, method and serialisation - and runs no
+   handler; a refused one-way request produces no frame. *)
+Theorem C04_refused_request_answered_once_stamped : forall find codec_ok decodable handler hmeta limited denied q t cl,
+  refusal limited denied q = Some (t, cl) -> q_oneway q = false ->
+  exists r, serve find codec_ok decodable handler hmeta limited denied q = ([r], []) /\ stamped q r /\
+            r_status r = SError /\ r_err r = Some (XExact t) /\ r_hb r = q_hb q /\ r_payload r = 0.
+Proof. exact refused_answered_once. Qed.
+
+Theorem C04_refused_one_way_request_is_silent : forall find codec_ok decodable handler hmeta limited denied q t cl,
+  refusal limited denied q = Some (t, cl) -> q_oneway q = true ->
+  serve find codec_ok decodable handler hmeta limited denied q = ([], []).
+Proof. exact refused_one_way_silent. Qed.
+
+(* refused or not: every two-way request gets exactly one stamped frame, every one-way request none *)
+Theorem C04_served_two_way_exactly_one_stamped : forall find codec_ok decodable handler hmeta limited denied q,
+  q_hb q = false -> q_oneway q = false ->
+  exists r, fst (serve find codec_ok decodable handler hmeta limited denied q) = [r] /\ stamped q r.
+Proof. exact served_two_way_exactly_one. Qed.
+
+Theorem C04_served_one_way_no_response : forall find codec_ok decodable handler hmeta limited denied q,
+  q_hb q = false -> q_oneway q = true -> fst (serve find codec_ok decodable handler hmeta limited denied q) = [].
+Proof. exact served_one_way_silent. Qed.
+
+(* any interleaving of reads (with refusals answered by the reader, and connections closed by a failed
+   authentication no longer read) and completions: a frame written on a connection answers a request read on it *)
+Theorem C04_served_frames_answer_own_connection : forall find codec_ok decodable handler hmeta limited denied es c f,
+  In (c, f) (written (gbase (grun find codec_ok decodable handler hmeta limited denied ginit es))) ->
+  exists rid q, In (CRead c rid q) es /\ In f (fst (serve find codec_ok decodable handler hmeta limited denied q)).
+Proof. exact served_frames_answer_own_connection. Qed.
+
+Example C04_gate_nonvacuous :
+  let find := fun p m => TMethod in
+  let handler := fun p m a => HReply (a * 10) in
+  let limited := fun p m a => if Nat.eqb a 3 then Some 902 else None in
+  let denied := fun p m a => if Nat.eqb a 5 then Some 903 else None in
+  let q a ow hb := mkReq 7 1 1 1 hb ow a in
+  let st := grun find (fun _ => true) (fun _ _ => true) handler (fun _ _ _ => []) limited denied ginit
+      [CRead 0 0 (q 3 false false); CRead 0 1 (q 4 false false); CRead 0 2 (q 3 true false); CRead 1 3 (q 5 false true);
+       CRead 1 4 (q 5 false false); CRead 1 5 (q 4 false false); CDone 1] in
+  map (fun cf => (fst cf, r_payload (snd cf), r_err (snd cf))) (written (gbase st))
+  = [(0, 0, Some (XExact 902)); (1, 0, Some (XExact 903)); (0, 40, None)]
+  /\ gclosed st = [1] /\ invoked (gbase st) = [(1, 1, 4)].
+Proof. vm_compute. repeat split. Qed.
+
 Print Assumptions C04_two_way_exactly_one_stamped.
 Print Assumptions C04_one_way_no_response.
 Print Assumptions C04_heartbeat_echo.
 Print Assumptions C04_frames_answer_own_connection.
 Print Assumptions C04_completed_requests_written_once.
 Print Assumptions C04_precall_refusal_answered_once_no_handler.
+Print Assumptions C04_refused_request_answered_once_stamped.
+Print Assumptions C04_refused_one_way_request_is_silent.
+Print Assumptions C04_served_two_way_exactly_one_stamped.
+Print Assumptions C04_served_one_way_no_response.
+Print Assumptions C04_served_frames_answer_own_connection.
